@@ -281,7 +281,7 @@ pub fn check(ctx: &Ctx) -> i32 {
             }
         }
     }
-    let n = ctx.tier.pick(600, 12000);
+    let n = ctx.tier.pick(600, 100000);
     if report.violations.is_empty() {
         let out = drive(&mut ev, ctx.seed, 20, n, 16, 400, 200, &|b| print_case(&ex, b, &bounds));
         if let Some((bytes, f)) = out.failure {
